@@ -61,7 +61,7 @@ package runtime
 //@   ensures  exists i int :: isLast(sp, name, i) && (i == 0 - 1 ? result == nil : result == sp.values[i])
 
 //@ method (*Scope).SetValue
-//@   requires scopeWF(sp)
+//@   requires scopeWF(sp) && okElem(value)
 //@   modifies mem(sp.values)
 //@   ensures  scopeWF(sp) && sp.localCount == old(sp.localCount)
 //@   ensures  [not-found] old(isLast(sp, name, 0 - 1)) ==> isRuntimeError(result, 42) && sameBelow(sp, sp.localCount)
@@ -79,7 +79,7 @@ package runtime
 //@   exists j int :: 0 <= j && j < sp.localCount && sp.locals[j].name == name && sp.locals[j].depth == sp.currentDepth
 
 //@ method (*Scope).declareValue
-//@   requires scopeWF(sp) && sp.localCount < 140737488355328
+//@   requires scopeWF(sp) && sp.localCount < 140737488355328 && okElem(value)
 //@   modifies sp.locals, sp.values, sp.localCount, mem(sp.locals), mem(sp.values)
 //@   ensures  scopeWF(sp) && sp.currentDepth == old(sp.currentDepth) && sameBelow(sp, old(sp.localCount))
 //@   ensures  [redeclared] old(dupAtDepth(sp, name)) ==> isRuntimeError(result, 43) && sp.localCount == old(sp.localCount)
@@ -91,7 +91,7 @@ package runtime
 //@   loop 1 decreases i + 1
 
 //@ method (*Scope).DeclareValue
-//@   requires scopeWF(sp) && sp.localCount < 140737488355328
+//@   requires scopeWF(sp) && sp.localCount < 140737488355328 && okElem(value)
 //@   modifies sp.locals, sp.values, sp.localCount, mem(sp.locals), mem(sp.values)
 //@   ensures  scopeWF(sp) && sp.currentDepth == old(sp.currentDepth) && sameBelow(sp, old(sp.localCount))
 //@   ensures  [redeclared] old(dupAtDepth(sp, name)) ==> isRuntimeError(result, 43) && sp.localCount == old(sp.localCount)
@@ -100,7 +100,7 @@ package runtime
 //@               !sp.locals[old(sp.localCount)].isConst && sp.values[old(sp.localCount)] == value
 
 //@ method (*Scope).DeclareConstValue
-//@   requires scopeWF(sp) && sp.localCount < 140737488355328
+//@   requires scopeWF(sp) && sp.localCount < 140737488355328 && okElem(value)
 //@   modifies sp.locals, sp.values, sp.localCount, mem(sp.locals), mem(sp.values)
 //@   ensures  scopeWF(sp) && sp.currentDepth == old(sp.currentDepth) && sameBelow(sp, old(sp.localCount))
 //@   ensures  [redeclared] old(dupAtDepth(sp, name)) ==> isRuntimeError(result, 43) && sp.localCount == old(sp.localCount)
@@ -109,7 +109,7 @@ package runtime
 //@               sp.locals[old(sp.localCount)].isConst && sp.values[old(sp.localCount)] == value
 
 //@ method (*Scope).DeclareExternalValue
-//@   requires scopeWF(sp) && sp.localCount < 140737488355328 && sp.externalRefs != nil
+//@   requires scopeWF(sp) && sp.localCount < 140737488355328 && sp.externalRefs != nil && okElem(value)
 //@   modifies sp.locals, sp.values, sp.localCount, mem(sp.locals), mem(sp.values), map(sp.externalRefs)
 //@   ensures  scopeWF(sp) && sp.currentDepth == old(sp.currentDepth) && sameBelow(sp, old(sp.localCount))
 //@   ensures  [redeclared] old(dupAtDepth(sp, name)) ==> isRuntimeError(result, 43) && sp.localCount == old(sp.localCount)
